@@ -173,7 +173,12 @@ def _cases_O(tier):
         for seq in itertools.product("OIUG", repeat=n):
             for sp in range(4):
                 for level in ("module", "class"):
-                    yield ("O", "".join(seq), sp, level)
+                    yield ("O", "".join(seq), sp, level, "")
+            # the overload decorator combined with another one written below / above it
+            if n <= 3:
+                for level in ("module", "class"):
+                    for extra in ("below", "above"):
+                        yield ("O", "".join(seq), 1, level, extra)
 
 
 def _cases_R(tier):
@@ -354,10 +359,11 @@ def _run_L(griffe, acc, case):
 
 
 def _run_O(griffe, acc, case):
-    _, seq, sp, level = case
+    _, seq, sp, level, extra = case
     imp, deco = SPELL[sp]
     ind = "    " if level == "class" else ""
-    lines = [imp]
+    lines = [imp, "def other_deco(f): return f"]
+    second = "@staticmethod" if level == "class" else "@other_deco"
     if level == "class":
         lines.append("class K:")
     pending: dict[str, list[str]] = {"f": [], "g": []}
@@ -366,7 +372,11 @@ def _run_O(griffe, acc, case):
         name = "f" if ch in "OI" else "g"
         tag = f"p{i}"
         if ch in "OG":
+            if extra == "above":
+                lines.append(f"{ind}{second}")
             lines.append(f"{ind}{deco}")
+            if extra == "below":
+                lines.append(f"{ind}{second}")
             lines.append(f"{ind}def {name}({tag}): ...")
             pending[name].append(tag)
         else:
